@@ -154,7 +154,7 @@ def _vm_goal(case, out):
             script = []
             for _ in range(int(t.next())):
                 a = t.next()
-                script.append({"K": "AOk", "F": "AFail", "X": "AErr"}.get(a[0]) or
+                script.append({"K": "AOk", "F": "AFail", "X": "AErr", "Z": "AShareFail"}.get(a[0]) or
                               ("A401 %s" % _cstr(a[1:]) if a[0] == "U" else ("AShare %s" % a[1:] if a[0] == "S" else "ATok %s" % a[1:])))
             hist.append("(mkReq %s %s %s %s, [%s])" % (h, _clist(hh), _clist(gh), body, "; ".join(script)))
         exp = []
@@ -250,9 +250,9 @@ CONFIG = {
         "a send that gets no response (transport error of the underlying http.Client, or the request context cancelled at that moment) is the answer AErr of the model; cancellation while WAITING on another request's in-flight fetch is covered by the Once/CacheSet systems and the concurrent mixes, not by the sequential model",
         "thorough tier: about 310 sampled correspondence cases (all case kinds) are re-evaluated inside Coq with vm_compute against the extracted runner's output (post_model hook)",
         "encoding/json, encoding/base64, net/url query/form encoding of the token requests are observed by the harness (decoded on the fake token server) but not modelled; the 'for which host' component of a token-request event is supplied by the harness (the request being served), not observed on the wire: realm, service, scopes and grant are observations",
-        "syncutil.Once, slot bookkeeping: Model/OnceSlot.v is a slot machine whose per-caller program is the list of control paths of Once.Do after the receive, extracted from once.go by the translator kind c16_oncepaths (a statement it does not understand is UNTRANSLATABLE); C16_once_paths_release checks by computation that every path holding the slot hands it back or publishes, C16_once_slot_never_lost proves for every interleaving (callers with dead contexts included) that the slot is free, closed or owned by a caller that will release it; the recorded Once executions are replayed on it and the final slot state is compared with the hook Once.VerifSlotFree (OS cases). The defer/recover path (panic inside f) is not extracted",
-        "syncutil.Once: the Go select/channel semantics are the LTS of Model/Once.v (buffered-1 channel holding true / empty / closed); runtime scheduling is quantified over as arbitrary interleavings of the visible events; panics inside f are not modelled",
-        "CONCURRENCY: Model/AuthConc.v is Client.Do with its three cache reads as oracles and its cache write as an output (do_request is the special case, C16_sequential_is_special_case) and the system of any number of calls over one shared cache whose atomic steps are 'call j looks at the cache' and 'call j finishes'; C16_concurrent_no_cross_host holds for every interleaving. Atomicity assumption: sync.Map operations are atomic and concurrentCache.store is one atomic write (its intermediate state is a cache in which the lookup fails, which the oracle form allows). The budget (<= 3 sends, <= 1 fetch) is per call and independent of the cache, so it holds verbatim for concurrent calls (C16_budget is stated on do_request; do_request_rd has the same send structure). In concurrent mixes every call is replayed on do_request_rd with what the cache told it and what the servers answered (J cases, incl. the token of another call's in-flight fetch as answer AShare); calls that received another call's fetch ERROR are not judged (mixjob/unjudged-shared-failure). budget, outcome classification and valid => non-401 are proved on do_request_rd for arbitrary oracle answers (C16_concurrent_budget, C16_concurrent_valid_credentials_succeed); C16_store_intermediate_state: the state between the two map operations of concurrentCache.store is a host-tainted cache too",
+        "syncutil.Once, slot bookkeeping: Model/OnceSlot.v is a slot machine whose per-caller program is the list of control paths of Once.Do after the receive, extracted from once.go by the translator kind c16_oncepaths (a statement it does not understand is UNTRANSLATABLE); C16_once_paths_release checks by computation that every path holding the slot hands it back or publishes, C16_once_slot_never_lost proves for every interleaving (callers with dead contexts included) that the slot is free, closed or owned by a caller that will release it; the recorded Once executions are replayed on it and the final slot state is compared with the hook Once.VerifSlotFree (OS cases). The deferred recover of Once.Do (what happens when the function argument panics) is extracted too (once_paths_panic) and is an event of the machine (SPanicF); panicking functions are generated in the Once cases (plan 5) and in the concurrent Set cases (accepted by Model/CacheSet.v as a hand-over); a panic anywhere else in Do is not modelled",
+        "syncutil.Once: the Go select/channel semantics are the LTS of Model/Once.v (buffered-1 channel holding true / empty / closed); runtime scheduling is quantified over as arbitrary interleavings of the visible events; a panic inside f is a hand-over like a cancellation for the channel LTS (the slot machine of Model/OnceSlot.v has the precise path)",
+        "CONCURRENCY: Model/AuthConc.v is Client.Do with its three cache reads as oracles and its cache write as an output (do_request is the special case, C16_sequential_is_special_case) and the system of any number of calls over one shared cache whose atomic steps are 'call j looks at the cache' and 'call j finishes'; C16_concurrent_no_cross_host holds for every interleaving. Atomicity assumption: sync.Map operations are atomic and concurrentCache.store is one atomic write (its intermediate state is a cache in which the lookup fails, which the oracle form allows). The budget (<= 3 sends, <= 1 fetch) is per call and independent of the cache, so it holds verbatim for concurrent calls (C16_budget is stated on do_request; do_request_rd has the same send structure). In concurrent mixes every call is replayed on do_request_rd with what the cache told it and what the servers answered (J cases, incl. the token of another call's in-flight fetch as answer AShare); a call that received another call's fetch ERROR is the model answer AShareFail (outcome EShared), judged as well. budget, outcome classification and valid => non-401 are proved on do_request_rd for arbitrary oracle answers (C16_concurrent_budget, C16_concurrent_valid_credentials_succeed); C16_store_intermediate_state: the state between the two map operations of concurrentCache.store is a host-tainted cache too",
         "concurrentCache.Set under concurrency is the transition system of Model/CacheSet.v (status map, Once instances, results; status.Delete over-approximated). Recorded executions of Set (direct and inside concurrent Client.Do mixes) are accepted by the extracted system: fetch start/end, delivered results and the identity of the in-flight entry (hook VerifInFlight, which recomputes the status key with a copy of the formula) are observed; LoadOrStore/Delete are hidden and PLACED by the harness at the latest point the observations allow, so acceptance means 'a consistent linearisation exists', not 'this was the order' (harness/cmd/c16/settrace.go)",
         "executions in which a delivered token/error cannot be attributed to exactly one fetch (Basic tokens, static access tokens, sentinel errors -- i.e. the long-lived secrets) are not judged by the Set trace acceptor (counted as settrace/*/unjudged; the harness fails if they exceed a quarter of the mixes); for them only the oracle applies",
         "C16_valid_credentials_succeed states 'valid credentials' on the outcome trace (no refused token request, no failed send, no 401 on a fresh send, no missing credential): it is the completeness of the outcome classification of C16_budget, not a statement about a server model",
